@@ -46,11 +46,14 @@ structure PairOk (w : XWriter) (p : Nat × Nat) : Prop where
   klen : (afterDot (keyOf w p.1)).length < 65536
   vlen : (valOf w p.2).length < 2 ^ 32
 
-/-- the contract between the writer's `get_position` and the reader's `seek` on the key/value stream -/
-structure RefOk (refOf : Nat → Nat) (posOf : Nat → Option Nat) : Prop where
-  inv : ∀ p, posOf (refOf p) = some p
-  off : ∀ p, refOf p % 65536 < metaBlockSize
-  lt : ∀ p, refOf p < 2 ^ 64
+/-- the contract between the writer's `get_position` and the reader's `seek` on the key/value stream, for the
+positions the writer can stand at: `p ≤ bound` (the length of the finished stream).  Satisfied by the real reference
+arithmetic: `refOk_raw` (uncompressed metadata, `rawRef`/`rawPos`) and `refOk_blocks` (`refOfPos` of any block list a
+meta writer produced) in `Proofs/EncXattrRef.lean`. -/
+structure RefOk (refOf : Nat → Nat) (posOf : Nat → Option Nat) (bound : Nat) : Prop where
+  inv : ∀ p, p ≤ bound → posOf (refOf p) = some p
+  off : ∀ p, p ≤ bound → refOf p % 65536 < metaBlockSize
+  lt : ∀ p, p ≤ bound → refOf p < 2 ^ 64
 
 theorem flag_none {t : Nat} (ht : t < 3) : t % (xattrPrefixMask + 1) = t ∧ ¬ ((t / xattrFlagOol) % 2 = 1) := by
   simp only [xattrPrefixMask, xattrFlagOol]; omega
@@ -135,10 +138,10 @@ theorem getD_set (l : List Nat) (i j v d : Nat) :
 
 /-- one pair: the stream grows, the invariant survives, and a reader whose stream extends what had been written
 before the pair reads the pair back from the bytes just appended -/
-theorem writePair_spec (refOf : Nat → Nat) (posOf : Nat → Option Nat) (hr : RefOk refOf posOf) (w : XWriter) (st : KvSt)
+theorem writePair_spec (refOf : Nat → Nat) (posOf : Nat → Option Nat) (bound : Nat) (hr : RefOk refOf posOf bound) (w : XWriter) (st : KvSt)
     (p : Nat × Nat) (hinv : OolInv refOf w st) (hp : PairOk w p) :
     ∃ d, (writePair refOf w st p).out = st.out ++ d ∧ OolInv refOf w (writePair refOf w st p) ∧
-      ∀ (r : XReader), r.posOf = posOf → (∃ tail, r.kv = st.out ++ tail) → ∀ suffix,
+      ∀ (r : XReader), r.posOf = posOf → r.kv.length ≤ bound → (∃ tail, r.kv = st.out ++ tail) → ∀ suffix,
         readPair r (d ++ suffix) = .ok ((keyOf w p.1, valOf w p.2), suffix) := by
   obtain ⟨⟨t, hk⟩, hkl, hvl⟩ := hp
   unfold writePair
@@ -161,7 +164,7 @@ theorem writePair_spec (refOf : Nat → Nat) (posOf : Nat → Option Nat) (hr : 
       · simp only [hs] at hvi ⊢
         obtain ⟨a, b, h1, h2⟩ := hinv vi hvi
         exact ⟨a, b ++ (encKey (w.keys.getD p.1 []) false ++ encValue (w.values.getD p.2 ([], 0)).1), by rw [h1]; simp, h2⟩
-    · intro r _ _ suffix
+    · intro r _ _ _ suffix
       exact readPair_inline r _ _ suffix hk hkl hvl
   · -- stored as a reference
     rename_i hne
@@ -170,66 +173,71 @@ theorem writePair_spec (refOf : Nat → Nat) (posOf : Nat → Option Nat) (hr : 
     · intro vi hvi
       obtain ⟨a', b', h1', h2'⟩ := hinv vi hvi
       exact ⟨a', b' ++ (encKey (w.keys.getD p.1 []) true ++ encValueOol (st.ool.getD p.2 NONE64)), by simp only; rw [h1']; simp, h2'⟩
-    · intro r hpo ⟨tail, hkv⟩ suffix
+    · intro r hpo hbd ⟨tail, hkv⟩ suffix
+      have hal : a.length ≤ bound := by
+        have : r.kv.length = a.length + (encValue (valOf w p.2)).length + b.length + tail.length := by
+          rw [hkv, h1]; simp; omega
+        omega
       refine readPair_ool r _ _ suffix a (b ++ tail) _ a.length hk hkl hvl ?_ ?_ rfl ?_ ?_
-      · rw [hpo, h2]; exact hr.inv _
+      · rw [hpo, h2]; exact hr.inv _ hal
       · rw [hkv, h1]; simp [valOf]
-      · rw [h2]; exact hr.off _
-      · rw [h2]; exact hr.lt _
+      · rw [h2]; exact hr.off _ hal
+      · rw [h2]; exact hr.lt _ hal
 
 /-- all pairs of one set -/
-theorem writePairs_spec (refOf : Nat → Nat) (posOf : Nat → Option Nat) (hr : RefOk refOf posOf) (w : XWriter) :
+theorem writePairs_spec (refOf : Nat → Nat) (posOf : Nat → Option Nat) (bound : Nat) (hr : RefOk refOf posOf bound) (w : XWriter) :
     ∀ (ps : List (Nat × Nat)) (st : KvSt), OolInv refOf w st → (∀ p ∈ ps, PairOk w p) →
       ∃ d, (ps.foldl (writePair refOf w) st).out = st.out ++ d ∧ OolInv refOf w (ps.foldl (writePair refOf w) st) ∧
-        ∀ (r : XReader), r.posOf = posOf → (∃ tail, r.kv = st.out ++ d ++ tail) → ∀ suffix,
+        ∀ (r : XReader), r.posOf = posOf → r.kv.length ≤ bound → (∃ tail, r.kv = st.out ++ d ++ tail) → ∀ suffix,
           readPairs r ps.length (d ++ suffix) = .ok (ps.map (fun p => (keyOf w p.1, valOf w p.2))) := by
   intro ps
   induction ps with
-  | nil => intro st hinv _; exact ⟨[], by simp, hinv, by intro r _ _ suffix; rfl⟩
+  | nil => intro st hinv _; exact ⟨[], by simp, hinv, by intro r _ _ _ suffix; rfl⟩
   | cons p ps ih =>
     intro st hinv hall
-    obtain ⟨d1, e1, i1, r1⟩ := writePair_spec refOf posOf hr w st p hinv (hall p (List.mem_cons_self ..))
+    obtain ⟨d1, e1, i1, r1⟩ := writePair_spec refOf posOf bound hr w st p hinv (hall p (List.mem_cons_self ..))
     obtain ⟨d2, e2, i2, r2⟩ := ih (writePair refOf w st p) i1 (fun x hx => hall x (List.mem_cons_of_mem _ hx))
     refine ⟨d1 ++ d2, by simp only [List.foldl_cons]; rw [e2, e1]; simp, by simpa using i2, ?_⟩
-    intro r hpo ⟨tail, hkv⟩ suffix
+    intro r hpo hbd ⟨tail, hkv⟩ suffix
     simp only [List.length_cons, readPairs, List.map_cons, List.append_assoc]
-    rw [r1 r hpo ⟨d1 ++ (d2 ++ tail), by rw [hkv]; simp⟩ (d2 ++ suffix)]
+    rw [r1 r hpo hbd ⟨d1 ++ (d2 ++ tail), by rw [hkv]; simp⟩ (d2 ++ suffix)]
     simp only
-    rw [r2 r hpo ⟨tail, by rw [hkv, e1]; simp⟩ suffix]
+    rw [r2 r hpo hbd ⟨tail, by rw [hkv, e1]; simp⟩ suffix]
 
 /-- all sets: every descriptor names the start of its set, and the set reads back from there -/
-theorem writeBlocks_spec (refOf : Nat → Nat) (posOf : Nat → Option Nat) (hr : RefOk refOf posOf) (w : XWriter) :
+theorem writeBlocks_spec (refOf : Nat → Nat) (posOf : Nat → Option Nat) (bound : Nat) (hr : RefOk refOf posOf bound) (w : XWriter) :
     ∀ (bs : List (Nat × Nat)) (st : KvSt), OolInv refOf w st → (∀ b ∈ bs, ∀ p ∈ blockPairs w.pairs b, PairOk w p) →
       ∃ d, (writeBlocks refOf w st bs).1.out = st.out ++ d ∧ (writeBlocks refOf w st bs).2.length = bs.length ∧
-        ∀ (r : XReader), r.posOf = posOf → (∃ tail, r.kv = st.out ++ d ++ tail) →
+        ∀ (r : XReader), r.posOf = posOf → r.kv.length ≤ bound → (∃ tail, r.kv = st.out ++ d ++ tail) →
           ∀ (j : Nat) (b : Nat × Nat) (ds : XDesc), bs[j]? = some b → (writeBlocks refOf w st bs).2[j]? = some ds →
-            ds.count = b.2 ∧ ∃ pos, ds.ref = refOf pos ∧
+            ds.count = b.2 ∧ ds.size ≤ d.length ∧ ∃ pos, pos ≤ r.kv.length ∧ ds.ref = refOf pos ∧
               readPairs r (blockPairs w.pairs b).length (r.kv.drop pos)
                 = .ok ((blockPairs w.pairs b).map (fun p => (keyOf w p.1, valOf w p.2))) := by
   intro bs
   induction bs with
-  | nil => intro st _ _; exact ⟨[], by simp [writeBlocks], rfl, by intro r _ _ j b ds hb; simp at hb⟩
+  | nil => intro st _ _; exact ⟨[], by simp [writeBlocks], rfl, by intro r _ _ _ j b ds hb; simp at hb⟩
   | cons b bs ih =>
     intro st hinv hall
-    obtain ⟨d1, e1, i1, r1⟩ := writePairs_spec refOf posOf hr w (blockPairs w.pairs b) st hinv (hall b (List.mem_cons_self ..))
+    obtain ⟨d1, e1, i1, r1⟩ := writePairs_spec refOf posOf bound hr w (blockPairs w.pairs b) st hinv (hall b (List.mem_cons_self ..))
     obtain ⟨d2, e2, l2, r2⟩ := ih ((blockPairs w.pairs b).foldl (writePair refOf w) st) i1
       (fun x hx => hall x (List.mem_cons_of_mem _ hx))
     refine ⟨d1 ++ d2, by simp only [writeBlocks]; rw [e2, e1]; simp, by simp [writeBlocks, l2], ?_⟩
-    intro r hpo ⟨tail, hkv⟩ j b' ds hb hds
+    intro r hpo hbd ⟨tail, hkv⟩ j b' ds hb hds
     cases j with
     | zero =>
       simp only [List.getElem?_cons_zero, Option.some.injEq] at hb
       subst hb
       simp only [writeBlocks, List.getElem?_cons_zero, Option.some.injEq] at hds
       subst hds
-      refine ⟨rfl, st.out.length, rfl, ?_⟩
+      refine ⟨rfl, by simp only [e1, List.length_append]; omega, st.out.length, by rw [hkv]; simp, rfl, ?_⟩
       have hd : r.kv.drop st.out.length = d1 ++ (d2 ++ tail) := by rw [hkv]; simp [List.append_assoc]
       rw [hd]
-      exact r1 r hpo ⟨d2 ++ tail, by rw [hkv]; simp⟩ (d2 ++ tail)
+      exact r1 r hpo hbd ⟨d2 ++ tail, by rw [hkv]; simp⟩ (d2 ++ tail)
     | succ j =>
       simp only [List.getElem?_cons_succ] at hb
       simp only [writeBlocks, List.getElem?_cons_succ] at hds
-      exact r2 r hpo ⟨tail, by rw [hkv, e1]; simp⟩ j b' ds hb hds
+      obtain ⟨c1, c2, c3⟩ := r2 r hpo hbd ⟨tail, by rw [hkv, e1]; simp⟩ j b' ds hb hds
+      exact ⟨c1, by simp only [List.length_append]; omega, c3⟩
 
 theorem oolInv_init (refOf : Nat → Nat) (w : XWriter) (n : Nat) : OolInv refOf w { out := [], ool := List.replicate n NONE64 } := by
   intro vi hvi
@@ -237,81 +245,5 @@ theorem oolInv_init (refOf : Nat → Nat) (w : XWriter) (n : Nat) : OolInv refOf
   apply hvi
   simp only [List.getD_eq_getElem?_getD, List.getElem?_replicate]
   split <;> rfl
-
-/-! ### the descriptor table -/
-
-theorem encDesc_length (d : XDesc) : (encDesc d).length = sizeofXattrId := by
-  simp [encDesc, encFields_length, sizeofXattrId]
-
-theorem encDescs_drop : ∀ (l : List XDesc) (j : Nat) (d : XDesc), l[j]? = some d →
-    ∃ tail, (encDescs l).drop (j * sizeofXattrId) = encDesc d ++ tail := by
-  intro l
-  induction l with
-  | nil => intro j d h; simp at h
-  | cons x l ih =>
-    intro j d h
-    cases j with
-    | zero =>
-      simp only [List.getElem?_cons_zero, Option.some.injEq] at h
-      subst h
-      exact ⟨encDescs l, by simp [encDescs]⟩
-    | succ j =>
-      simp only [List.getElem?_cons_succ] at h
-      obtain ⟨tail, ht⟩ := ih j d h
-      refine ⟨tail, ?_⟩
-      have : (j + 1) * sizeofXattrId = (encDesc x).length + j * sizeofXattrId := by
-        rw [encDesc_length]; simp only [sizeofXattrId]; omega
-      simp only [encDescs, List.map_cons, List.flatten_cons] at ht ⊢
-      rw [this, ← List.drop_drop, List.drop_left]
-      exact ht
-
-theorem getDesc_spec (r : XReader) (descs : List XDesc) (j : Nat) (d : XDesc) (hids : r.ids = encDescs descs)
-    (hn : r.numIds = descs.length) (hj : descs[j]? = some d) (h1 : d.ref < 2 ^ 64) (h2 : d.count < 2 ^ 32) (h3 : d.size < 2 ^ 32) :
-    getDesc r j = .ok d := by
-  unfold getDesc
-  obtain ⟨hlt, _⟩ := List.getElem?_eq_some_iff.mp hj
-  have : ¬ (j ≥ r.numIds) := by omega
-  simp only [this, if_false]
-  obtain ⟨tail, ht⟩ := encDescs_drop descs j d hj
-  rw [hids, ht]
-  have hf := readFields_encFields_fit [(8, d.ref), (4, d.count), (4, d.size)] tail (by
-    simp only [List.forall_mem_cons, List.not_mem_nil, false_imp_iff, implies_true, and_true]
-    refine ⟨?_, ?_, ?_⟩ <;> simp <;> omega)
-  simp only [List.map_cons, List.map_nil] at hf
-  simp only [encDesc, hf]
-
-/-- **xattr flush → read.**  For a writer state in which every recorded pair is representable, and for every
-`(refOf, posOf)` in which the reader's seek undoes the writer's `get_position`: reading set index `j` from what
-`sqfs_xattr_writer_flush` wrote yields exactly the pairs of block `j` — keys with their prefix, values byte for
-byte, whether a value was stored in line or as a reference to an earlier copy. -/
-theorem readSet_flush (refOf : Nat → Nat) (posOf : Nat → Option Nat) (hr : RefOk refOf posOf) (w : XWriter)
-    (hp : ∀ b ∈ w.blocks, ∀ p ∈ blockPairs w.pairs b, PairOk w p)
-    (hfit : ∀ d ∈ (flushKv refOf w).2, d.count < 2 ^ 32 ∧ d.size < 2 ^ 32)
-    (hcount : ∀ b ∈ w.blocks, (blockPairs w.pairs b).length = b.2)
-    (j : Nat) (hj : j < w.blocks.length) (hj32 : j ≠ NONE32) :
-    readSet ⟨(flushKv refOf w).1, encDescs (flushKv refOf w).2, w.blocks.length, posOf⟩ j = .ok (w.setOf j) := by
-  obtain ⟨d, e, l, rd⟩ := writeBlocks_spec refOf posOf hr w w.blocks { out := [], ool := List.replicate w.values.length NONE64 }
-    (oolInv_init refOf w _) hp
-  simp only [List.nil_append] at e rd
-  have hfk1 : (flushKv refOf w).1 = d := by simp only [flushKv]; exact e
-  have hfk2 : (flushKv refOf w).2 = (writeBlocks refOf w { out := [], ool := List.replicate w.values.length NONE64 } w.blocks).2 := rfl
-  obtain ⟨b, hb⟩ : ∃ b, w.blocks[j]? = some b := ⟨w.blocks[j], by simp [hj]⟩
-  obtain ⟨ds, hds⟩ : ∃ ds, (flushKv refOf w).2[j]? = some ds := by
-    rw [hfk2]
-    exact ⟨_, List.getElem?_eq_getElem (by rw [l]; exact hj)⟩
-  obtain ⟨r, hrdef⟩ : ∃ r : XReader, r = ⟨(flushKv refOf w).1, encDescs (flushKv refOf w).2, w.blocks.length, posOf⟩ := ⟨_, rfl⟩
-  rw [← hrdef]
-  have hkv : r.kv = (flushKv refOf w).1 := by rw [hrdef]
-  have hids : r.ids = encDescs (flushKv refOf w).2 := by rw [hrdef]
-  have hn : r.numIds = w.blocks.length := by rw [hrdef]
-  have hpo : r.posOf = posOf := by rw [hrdef]
-  obtain ⟨hc, pos, hpos, hread⟩ := rd r hpo ⟨[], by rw [hkv, hfk1]; simp⟩ j b ds hb (by rw [← hfk2]; exact hds)
-  have hmem : ds ∈ (flushKv refOf w).2 := List.mem_of_getElem? hds
-  obtain ⟨f1, f2⟩ := hfit ds hmem
-  have hg := getDesc_spec r (flushKv refOf w).2 j ds hids (by rw [hn, hfk2, l]) hds (by rw [hpos]; exact hr.lt _) f1 f2
-  unfold readSet
-  simp only [hj32, if_false, hg, hpo, hpos, hr.inv]
-  rw [hc, ← hcount b (List.mem_of_getElem? hb), hread]
-  simp [XWriter.setOf, hb, keyOf, valOf]
 
 end Sqfs.Enc
